@@ -15,7 +15,7 @@ open Elys Elys.Amm Elys.Close
 /-- stop loss: the guards let a request through exactly when `allowed … .stopLoss` (position 1 = LONG; the guards treat anything else
 as SHORT, an invalid position is refused later). A SHORT whose owner set no stop loss (0) is never let through. -/
 theorem gen_perp_stopLoss (bc : String) (v : View) (hm : v.module = .perp) :
-    (Gen.Arith.perpStopLossGuards bc v.price false (if v.long then 1 else 2) v.stopLoss = .ok ()) ↔ allowed v .stopLoss = true := by
+    (Gen.Arith.perpStopLossGuards bc v.price false (if v.long then 1 else 2) v.stopLoss = .ok true) ↔ allowed v .stopLoss = true := by
   unfold Gen.Arith.perpStopLossGuards allowed
   cases hl : v.long
   · simp [hm, hl]
@@ -25,7 +25,7 @@ theorem gen_perp_stopLoss (bc : String) (v : View) (hm : v.module = .perp) :
 
 /-- take profit: likewise. -/
 theorem gen_perp_takeProfit (bc : String) (v : View) (hm : v.module = .perp) :
-    (Gen.Arith.perpTakeProfitGuards bc v.price false (if v.long then 1 else 2) v.takeProfit = .ok ()) ↔ allowed v .takeProfit = true := by
+    (Gen.Arith.perpTakeProfitGuards bc v.price false (if v.long then 1 else 2) v.takeProfit = .ok true) ↔ allowed v .takeProfit = true := by
   unfold Gen.Arith.perpTakeProfitGuards allowed
   cases hl : v.long
   · simp [hm, hl]
@@ -35,7 +35,7 @@ theorem gen_perp_takeProfit (bc : String) (v : View) (hm : v.module = .perp) :
 
 /-- when the price of the trading asset cannot be read, nothing is closed. -/
 theorem gen_perp_no_price (bc : String) (p pos x : Int) :
-    Gen.Arith.perpStopLossGuards bc p true pos x ≠ .ok () ∧ Gen.Arith.perpTakeProfitGuards bc p true pos x ≠ .ok () := by
+    Gen.Arith.perpStopLossGuards bc p true pos x ≠ .ok true ∧ Gen.Arith.perpTakeProfitGuards bc p true pos x ≠ .ok true := by
   unfold Gen.Arith.perpStopLossGuards Gen.Arith.perpTakeProfitGuards
   constructor <;> simp
 
